@@ -177,6 +177,20 @@ CLAIMED = {
              'the table is regenerated. Known finding F23: non-monotone knot in CS_Photo.dat for Z=96 (thorough tier).',
         technique='interval facts + exact normal form of the kernel; family derivation from the parser; generated-table validation',
     ),
+    'C09': dict(
+        category='other',
+        text='The four Jump_from_* functions are enumerated path by path (~230 value paths); each is classified by the set of K/L '
+             'edges its interval facts place below E and its returned normal form is compared exactly with the jump-ratio model '
+             '(tau_k, 1/J_K, Coster-Kronig feeding, yield); every jump ratio and yield in the expression and every CK value that '
+             'feeds a positive share is established non-zero on the path or the path is an error exit; all cases of open edges are '
+             'served; below the sub-shell edge the call fails. Dispatch table = shell macro values, CS_FluorShell = CS_Photo x '
+             'factor with both tested, CS_FluorLine line ranges = header macro ranges per shell, L-beta = sum over members of the '
+             'jump function of the member\'s own shell times its rate.',
+        design_ref='DESIGN.md section 2, C09',
+        note='Assumes edge energies ordered L1 > L2 > L3 (encoded by the else-chain of the source; physical fact). Numeric values '
+             'not evaluated.',
+        technique='path-sensitive abstract interpretation with exact rational normal forms vs a parametric jump-ratio model',
+    ),
 }
 
 NOT_YET = {}
